@@ -297,11 +297,21 @@ func NewFECase(g *Gen, id int) *Case {
 		for _, kv := range record {
 			obj[keys[kv.K]] = kv.V.Go(nil)
 		}
+		hugeNumber := false
+		if len(record) > 0 && g.R.P(5) {
+			// a number literal no float64 can hold: encoding/json rejects the document
+			obj[keys[record[g.R.Intn(len(record))].K]] = json.RawMessage(Pick(g.R, []string{"1e309", "-1E+999", "1.8e308", "1" + strings.Repeat("0", 400)}))
+			hugeNumber = true
+		}
 		body, err := json.Marshal(obj)
 		if err != nil {
 			body = []byte(`{}`)
 		}
-		if g.R.P(18) {
+		if hugeNumber {
+			bad = "<number out of range>"
+			comparable = false
+		}
+		if !hugeNumber && g.R.P(18) {
 			bad = Pick(g.R, []string{`null`, ``, `[1,2]`, `{}`, `{"a":`, `12`, `"str"`, ` {} `, string(body) + ` trailing`, `{"a":1}{"b":2}`, `nul`, "\xff"})
 			body = []byte(bad)
 			comparable = false
